@@ -2704,6 +2704,9 @@ func AddMarshalTags(att *expr.AttributeExpr, seen map[string]struct{}) {
 			for _, att := range *(expr.AsObject(att.Type)) {
 				AddMarshalTags(att.Attribute, seen)
 			}
+		} else {
+			// array or map user type (e.g. a result type collection)
+			AddMarshalTags(ut.Attribute(), seen)
 		}
 		return
 	}
@@ -2728,6 +2731,7 @@ func AddMarshalTags(att *expr.AttributeExpr, seen map[string]struct{}) {
 		natt.Attribute.Meta["struct:tag:form"] = ns
 		natt.Attribute.Meta["struct:tag:json"] = ns
 		natt.Attribute.Meta["struct:tag:xml"] = ns
+		AddMarshalTags(natt.Attribute, seen)
 	}
 }
 
